@@ -174,3 +174,17 @@ func removeTree(fs afero.Fs, name string) error {
 	}
 	return fs.Remove(name)
 }
+
+// scratchName returns a name in dir for a file gofakes3 needs for itself:
+// base, or base followed by a counter, whichever no existing file has (and
+// which is not avoid). Every file name is a valid object key, so a fixed name
+// could clobber a stored object.
+func scratchName(fs afero.Fs, dir, base, avoid string) string {
+	name := filepath.Join(dir, base)
+	for i := 1; ; i++ {
+		if _, err := fs.Stat(name); name != avoid && err != nil {
+			return name
+		}
+		name = filepath.Join(dir, fmt.Sprintf("%s.%d", base, i))
+	}
+}
